@@ -8,6 +8,9 @@ SMOOTH_BEGIN_NAMESPACE
 
 static constexpr double eps2 = 1e-8;
 
+/// @brief Squared-angle switch for the (more cancellation-prone) second derivatives
+static constexpr double eps2_hess = 1e-3;
+
 #define SMOOTH_DEFINE_REFS                                                      \
   using GRefIn  = const Eigen::Ref<const Eigen::Matrix<Scalar, RepSize, 1>> &;  \
   using GRefOut = Eigen::Ref<Eigen::Matrix<Scalar, RepSize, 1>>;                \
